@@ -69,3 +69,11 @@ package p2p
 //@   callsite holdUnread requires[remainder] callee.bytesRead == min(len(data), chunkLength) && len(callee.chunk) == chunkLength && chunkLength <= crypto.MaxDataSize
 //@   ensures[bounded] old(c.receive.aead) != nil ==> 0 <= n && n <= len(data)
 //@   ensures[nodata] old(c.receive.aead) != nil && !isnil(err) ==> n == 0
+
+// ---- C18: one message, one EOF ----------------------------------------------------------------------------------
+// the packets of a message are its chunks in order, all on the message's topic, and exactly the LAST one carries
+// the end-of-message flag (whatever its size: a message that is an exact multiple of the chunk size still ends)
+//@ func (*MultiConn).Send
+//@   loop 1 iterensures[packet] len(packets) >= 1 && packets[len(packets) - 1].Eof == (i == len(chunks) - 1) && packets[len(packets) - 1].Bytes == chunk && packets[len(packets) - 1].StreamId == topic
+//@   loop 1 invariant[count] len(packets) == iter && len(packets) <= len(chunks)
+//@   callsite queueSends requires[all] len(packets) == len(chunks)
